@@ -53,3 +53,4 @@ func verifGo(f func()) {
 }
 
 func verifJoin() { verifWG.Wait() }
+func verifFireTimer()
